@@ -416,6 +416,7 @@ void add_type(Node *node);
 void codegen(Obj *prog, FILE *out);
 int align_to(int n, int align);
 bool struct_in_memory(Type *ty);
+bool struct_ret_in_memory(Type *ty);
 int struct_reg_class(Type *ty);
 
 //
